@@ -74,6 +74,12 @@ def toNat : BV4 → Nat
   | [] => 0
   | b :: bs => (if b = B4.t then 1 else 0) + 2 * toNat bs
 
+/-- the largest number an only partially defined vector can stand for: undefined bits read as 1
+    (`(value & defined) | (~defined & mask)`) -/
+def maxNat : BV4 → Nat
+  | [] => 0
+  | b :: bs => (if b = B4.f then 0 else 1) + 2 * maxNat bs
+
 /-- `w` fully defined bits holding `n mod 2^w` (`insertNonStraddling` / `insert` of a word, DEFINED set) -/
 def ofNat : Nat → Nat → BV4
   | 0, _ => []
